@@ -484,6 +484,9 @@ func registerMisc(t map[string]intrinsic) {
 	t["(net.IP).String"] = func(ex *Exec, caller *frame, fn *ssa.Function, args []Value) (Value, *goPanic) {
 		return ex.mkStr("<ip>"), nil
 	}
+	t["github.com/miekg/dns.id"] = func(ex *Exec, caller *frame, fn *ssa.Function, args []Value) (Value, *goPanic) {
+		return ex.fresh("dns.id", 16), nil
+	}
 	t["os.LookupEnv"] = lookupEnv
 	t["syscall.Getenv"] = lookupEnv
 	t["os.Getenv"] = func(ex *Exec, caller *frame, fn *ssa.Function, args []Value) (Value, *goPanic) {
